@@ -527,7 +527,15 @@ class Printer:
             self.emit("%svar c%d %s = %s" % (t, self.ntmp, self.tyname(("I", s[2][1]), k), self.convexpr(s[2][1], s[2][2], k)))
             self.emit("%s%s = c%d" % (t, self.var(s[1], k), self.ntmp))
         elif kind == "assign":
-            self.emit("%s%s = %s" % (t, self.var(s[1], k), self.atom(s[2], k)[0]))
+            lhs, rhs = self.var(s[1], k), self.atom(s[2], k)[0]
+            sp = self.pick(10)
+            if sp == 8 and lhs != "_":
+                # a tuple assignment whose other left-hand side is blank: the same single assignment
+                self.emit("%s%s, _ = %s, 0" % (t, lhs, rhs))
+            elif sp == 9 and lhs != "_":
+                self.emit("%s_, %s = 0, %s" % (t, lhs, rhs))
+            else:
+                self.emit("%s%s = %s" % (t, lhs, rhs))
         elif kind == "call":
             lhs = "_" if s[1] is None else self.var(s[1], k)
             ct, sites = self.callexpr(s[2], s[3], k, s[4])
